@@ -123,5 +123,10 @@ def run(repo, check):
         f.rule = 'C03.R4'
     check.add(r4)
     check.run_rule(c02.rule_r6, repo, 'C03.R5')
+    from sa.rules import c01, c05, c19
+    from sa.rules.common import share
+    share(check, repo, c19.rule_r1, 'C03.R6', 'reader and writer agree per type and width (shared with C19.R1)', args=(check.tier,))
+    share(check, repo, c05.rule_r2, 'C03.R7', 'compressed columns: all-equal shortcut never drops a missing entry (shared with C05.R2)')
+    share(check, repo, c01.rule_r6, 'C03.R8', 'decoder arithmetic of the numeric primitives (shared with C01.R6)')
     check.assumptions = ['range refusal itself is bitstring\'s: a value handed to it unchanged that does not fit the field raises (trusted base)',
                          'the half-unit quantisation bound and the byte-identity of repeated round trips are runtime facts and are not decided']
